@@ -82,8 +82,16 @@ func execCNF(env Env, t *world.TaskSpec, out *Outcome) {
 		return
 	}
 	nTruth := wantN
-	truth := cnfTruth(nTruth, t.Clauses)
-	if pb.Status == solver.Unsat {
+	soak := nTruth > 90 // beyond the reference solvers: judged by model and certificate only
+	truth := false
+	if !soak {
+		truth = cnfTruth(nTruth, t.Clauses)
+	} else {
+		out.probe("soak-instance")
+	}
+	if soak {
+		// nothing to compare the parse-time status with
+	} else if pb.Status == solver.Unsat {
 		out.probe("parse-time-unsat")
 		if truth {
 			out.fail("C01", "parse-status", "Problem.Status is Unsat after parsing but the formula is satisfiable: %v", t.Clauses)
@@ -130,7 +138,7 @@ func execCNF(env Env, t *world.TaskSpec, out *Outcome) {
 	}
 	switch status {
 	case solver.Sat:
-		if !truth {
+		if !truth && !soak {
 			out.fail("C01", "verdict", "answered Sat, formula is unsatisfiable: n=%d clauses=%v", wantN, t.Clauses)
 			return
 		}
@@ -142,9 +150,12 @@ func execCNF(env Env, t *world.TaskSpec, out *Outcome) {
 			out.fail("C01", "model-invalid", "model %v falsifies clause %d %v of the input", m, i, t.Clauses[i])
 		}
 	case solver.Unsat:
-		if truth {
+		if truth && !soak {
 			out.fail("C01", "verdict", "answered Unsat, formula is satisfiable: n=%d clauses=%v", wantN, t.Clauses)
 			return
+		}
+		if soak && !t.Cert {
+			out.probe("soak-unsat-not-judged")
 		}
 	default:
 		out.fail("C01", "indet", "Solve returned %s", statusStr(status))
@@ -161,6 +172,26 @@ func judgeCert(t *world.TaskSpec, n int, unsat bool, lines []string, out *Outcom
 	out.probe("cert-checked")
 	if len(lines) > 0 {
 		out.probe("cert-nonempty")
+	}
+	if unsat && (n > 90 || len(lines) > 3000) {
+		// long certificates: the watched-literal reference checker (cross-checked against the naive one in sim/ref)
+		r := ref.NewFastRUP(n, t.Clauses)
+		for i, ln := range lines {
+			c, ok := ref.ParseCertLine(ln)
+			if !ok {
+				out.fail("C06", "cert-syntax", "line %d %q is not a clause line", i, ln)
+				return
+			}
+			if !r.Check(c) {
+				out.fail("C06", "cert-not-rup", "line %d of %d %q is not RUP w.r.t. the formula and the earlier lines; n=%d, %d clauses (soak instance, world file holds it)", i, len(lines), ln, n, len(t.Clauses))
+				return
+			}
+		}
+		if !r.Refuted() {
+			out.fail("C06", "cert-no-refutation", "after %d lines the empty clause is not derivable by unit propagation; n=%d, %d clauses (soak instance)", len(lines), n, len(t.Clauses))
+		}
+		out.probe("cert-long-checked")
+		return
 	}
 	if unsat {
 		r := ref.NewRUP(n, t.Clauses)
